@@ -1366,6 +1366,39 @@ pub fn run(cx: &mut Ctx) {
         for (s1, s2) in &pairs {
             run_interleavings(cx, s1, s2, 48);
         }
+        // the two transfers use the SAME message ids and tokens (ids and tokens are scoped per
+        // endpoint; identical devices start with identical counters)
+        let s1 = download_script(&base, 1, &body1, 0, 10);
+        let s2 = download_script(v, *ep2, &body2, 0, 10);
+        run_interleavings(cx, &s1, &s2, 48);
+        let s1 = upload_script(&ReqShape { code: 3, ..base.clone() }, 1, &body1, 0, 10);
+        let s2 = upload_script(&ReqShape { code: if v.code == 1 { 3 } else { 4 }, ..v.clone() }, *ep2, &body2, 0, 10);
+        run_interleavings(cx, &s1, &s2, 48);
+    }
+    // ---- D2. every registered option as an extra request option (typed values of several magnitudes)
+    //          on a small upload and a small download: options the handler does not interpret must not
+    //          change what it does, and the ones it could interpret (Size1, Size2, ...) must not break the body
+    {
+        let reg = crate::tbl::load_registry();
+        let nums: Vec<u16> = reg.tables.get("options").map(|t| t.keys().map(|k| *k as u16).collect()).unwrap_or_default();
+        let body = body_of(&mut rng, 40);
+        for &n in &nums {
+            if n == 11 || n == 23 || n == 27 {
+                continue;
+            }
+            for val in [vec![], vec![1u8], vec![40], vec![16], vec![120], vec![0x10, 0x00], vec![0xff, 0xff, 0xff, 0xff], b"text".to_vec()] {
+                let shape = ReqShape { typ: 0, code: 2, tok: vec![7], path: vec![b"up".to_vec()], extra: vec![(n, val.clone())] };
+                let ov = overhead_of(&shape.spec(1, Some(bv_bytes(1, true, 0)), None, &[]).build());
+                let m = ov + 12 + 16 + 3;
+                if m <= 1280 {
+                    let mut sess = Session::new(m, 60000);
+                    run_upload(cx, &Upload { shape: &shape, ep: 1, m, body: body.clone(), szx: 0, dups: vec![1], abandoned: None, dup_final: 0, fresh_tokens: false }, &mut sess);
+                }
+                let shape = ReqShape { code: 1, ..shape };
+                let mut sess = Session::new(64, 60000);
+                run_download(cx, &Download { shape: &shape, ep: 1, m: 64, body: body.clone(), resp_opts: vec![(n, val.clone())], first_szx: None, reduce_at: None }, &mut sess, true);
+            }
+        }
     }
     cx.exhaustive.push("all interleavings of 2 scripted transfers x 4 exchanges (downloads and uploads), pairwise differing in exactly one of endpoint / method / path segmentation / path prefix".into());
 
